@@ -1,4 +1,5 @@
 import Juniper.Generated.SkeletonPar
+import Juniper.Proofs.SkeletonParDo
 /-!
 # Control-skeleton ties for `parallel.Do` / `DoContext` / `Map` / `MapContext` / `MapIterator` / `MapStream`
 
@@ -12,80 +13,15 @@ the models were written against. Renaming a variable or rewriting a condition le
 added, removed or reordered statement, an added early return or fast path, a loop gaining a
 condition, a statement moving into or out of a goroutine makes the lemma of that body fail.
 
-`doCode_sound`, `dcCode_sound`, `map_wrappers_structural` (C13) and `stream_code_sound`,
-`iter_code_sound` (C14, MapStream clauses of C08/C09) are stated `under` these ties, so every property
-theorem of these components depends on them.
+The C13 soundness tactics `pardo_sound`, `wrapper_sound` (`Proofs/ParDoBasic.lean`, `Proofs/ParWrap.lean`;
+ties in `Proofs/SkeletonParDo.lean`) and `stream_code_sound`, `iter_code_sound` (C14, MapStream clauses of
+C08/C09) go `under` these ties, so every property theorem of these components depends on them.
 -/
 namespace Juniper.Proofs.SkeletonPar
 open Juniper.Gen.SkeletonPar
 
-/-- `p`, claimed only for a source whose control skeleton is as the tie `k` says. Conclusions about
-the code "as it is in the source now" go through this lemma so that they depend on the tie. -/
-theorem under {k p : Prop} (_tie : k) (h : p) : p := h
-
-/-! ### parallel.Do -/
-
-/-- `Do`: clamp low, clamp high, sequential fast path (`for …; return`), counter, wait group,
-`wg.Add`, spawn loop of `go` statements, `wg.Wait()`, `return`. -/
-theorem pskelDo_tie : pskelDo =
-    ["if{assign}", "if{assign}", "if{for{..};return}", "define", "decl", "mcall", "for{go{..}}", "mcall",
-     "return"] := by
-  decide
-
-/-- sequential path of `Do`: `for … { f(i) }; return` -/
-theorem pskelDoSeq_tie : pskelDoSeq =
-    ["for{call}", "return"] := by decide
-
-/-- worker of `Do`: `defer wg.Done()`, then forever: fetch, `if … { return }`, `f(i)` -/
-theorem pskelDoWorker_tie : pskelDoWorker =
-    ["defer", "forever{define;if{return};call}"] := by decide
-
-/-- the three bodies of `parallel.Do` the LTS hard-wires -/
-theorem pskelDo_ties :
-    pskelDo =
-    ["if{assign}", "if{assign}", "if{for{..};return}", "define", "decl", "mcall", "for{go{..}}", "mcall",
-     "return"]
-    ∧ pskelDoSeq =
-    ["for{call}", "return"]
-    ∧ pskelDoWorker =
-    ["defer", "forever{define;if{return};call}"] :=
-  ⟨pskelDo_tie, pskelDoSeq_tie, pskelDoWorker_tie⟩
-
-/-! ### parallel.DoContext -/
-
-/-- `DoContext`: clamp low, clamp high, sequential fast path, counter, errgroup, spawn loop of
-`eg.Go(func …)`, `return eg.Wait()`. -/
-theorem pskelDoContext_tie : pskelDoContext =
-    ["if{assign}", "if{assign}", "if{for{..};return}", "define", "define", "for{mcall{..}}", "return"] := by
-  decide
-
-/-- sequential path of `DoContext`: `for … { err := f(ctx, i); if err != nil { return err } }; return nil` -/
-theorem pskelDoContextSeq_tie : pskelDoContextSeq =
-    ["for{define;if{return}}", "return"] := by decide
-
-/-- worker of `DoContext`: forever: fetch, done?, cancelled?, call, failed? -/
-theorem pskelDoContextWorker_tie : pskelDoContextWorker =
-    ["forever{define;if{return};if{return};define;if{return}}"] := by decide
-
-theorem pskelDoContext_ties :
-    pskelDoContext =
-    ["if{assign}", "if{assign}", "if{for{..};return}", "define", "define", "for{mcall{..}}", "return"]
-    ∧ pskelDoContextSeq =
-    ["for{define;if{return}}", "return"]
-    ∧ pskelDoContextWorker =
-    ["forever{define;if{return};if{return};define;if{return}}"] :=
-  ⟨pskelDoContext_tie, pskelDoContextSeq_tie, pskelDoContextWorker_tie⟩
-
-/-! ### Map / MapContext -/
-
-/-- `Map`: allocate, `Do(…, func(i) { out[i] = f(in[i]) })`, `return out` -/
-theorem pskelMap_tie : pskelMap =
-    ["define", "call{assign}", "return"] := by decide
-
-/-- `MapContext`: allocate, `err := DoContext(…, func … { var err error; out[i], err = …; return err })`,
-`if err != nil { return nil, err }`, `return out, nil` -/
-theorem pskelMapContext_tie : pskelMapContext =
-    ["define", "define{decl;assign;return}", "if{return}", "return"] := by decide
+-- `under` and the ties of `Do` / `DoContext` / `Map` / `MapContext` (C13) live in `Proofs/SkeletonParDo.lean`
+-- (same namespace), so that a change confined to MapIterator / MapStream does not stop the C13 build.
 
 /-! ### parallel.MapIterator -/
 
